@@ -50,6 +50,9 @@ func (u *Unsubscribe) Decode(src []byte) (int, error) {
 		return total, err
 	}
 
+	// ignore bytes that follow the packet
+	src = limitToPacket(src)
+
 	// read packet id
 	pid, n, err := readUint(src[total:], 2, UNSUBSCRIBE)
 	total += n
